@@ -5,7 +5,8 @@ from vlib import songgen
 
 ID = "C04"
 LEAN_MODULE = "Ctrmml.Properties.C04"
-THEOREMS = ["C04_player_refines_expand", "C04_validator_accepts", "C04_validator_rejects", "C04_validator_terminates"]
+THEOREMS = ["C04_player_refines_expand", "C04_validator_accepts", "C04_validator_rejects", "C04_validator_terminates",
+            "C04_end_loops_iff_time_passed", "C04_drum_enter", "C04_drum_exit", "C04_drum_no_note_rejected"]
 LEVEL = "proof"
 STREAM = "player.trace+valid"
 CHUNK = 150
